@@ -1812,6 +1812,28 @@ def rule_refresh_unconditional(chk):
     chk.floor('per-array rebuild loops', n, 3)
 
 
+def rule_sorted_on_every_refill(chk):
+    """the classes that search a key-sorted table (Z-order, stratified space-filling curve, cell indexing) sort the keys every time the table is filled - the sort in
+    fill_array is under no condition (an "already in order" flag set by the re-ordering is wrong as soon as align_particles moves real particles in front of ghosts, or the
+    particles move before the next update).  Shared with C17."""
+    n = 0
+    for rel in ('pysph/base/z_order_nnps.pyx', 'pysph/base/stratified_sfc_nnps.pyx', 'pysph/base/cell_indexing_nnps.pyx'):
+        for cls in M.classes(M.cy(rel)):
+            fn = M.methods(cls).get('fill_array')
+            if fn is None:
+                continue
+            M.set_parents(fn)
+            sorts = [c for c in M.calls(fn) if (isinstance(c.func, ast.Attribute) and c.func.attr in ('compare_sort', 'sort')) or M.call_name(c) in ('sort', 'qsort')]
+            n += 1
+            cond = [M.enclosing(c, (ast.If, ast.For, ast.While)) for c in sorts]
+            ok = bool(sorts) and any(g_ is None for g_ in cond)
+            chk.decide(ok, 'results-not-stale', '%s.fill_array:keys-sorted-on-every-refill' % cls.name, node=sorts[0] if sorts else fn, file=rel, func='%s.fill_array' % cls.name,
+                       detail_bad='the keys are %s: a table that is searched by key position must be sorted whenever it is refilled; an array that "is already in key order" stops being '
+                                  'so when align_particles moves the real particles in front, or when particles move before the update' % ('sorted only under `%s`' % compact(cond[0].test) if sorts and isinstance(cond[0], ast.If) else 'not sorted'),
+                       detail_ok='sorted unconditionally')
+    chk.floor('key tables filled', n, 3)
+
+
 def rule_every_level_searched(chk):
     """the stratified classes keep one structure per level of smoothing length; a query visits every level - an empty level is skipped (continue), it does not end the search:
     particles with a larger h live in the levels above it"""
@@ -2249,6 +2271,7 @@ def main(chk):
     rule_narrowing(chk)
     rule_query_array_index(chk)
     rule_every_level_searched(chk)
+    rule_sorted_on_every_refill(chk)
     rule_refresh_unconditional(chk)
     rule_cxx_headers(chk)
     # only valid indices, no duplicates: a sort of the result must touch exactly the slice this query appended (rule shared with C05)
